@@ -62,7 +62,7 @@ theorem C02_stable_models (ext inc : Bool) (ds : List Call) (hx : ∀ d ∈ ds, 
         Stable (rulesOf (convert ext (stepCalls inc ds)).out) (E X) ∧ E X 1 = false ∧ restrict (convert ext (stepCalls inc ds)) (E X) = X) ∧
       (∀ X', Stable (rulesOf (convert ext (stepCalls inc ds)).out) X' → X' 1 = false →
         Stable (rulesOf ds) (restrict (convert ext (stepCalls inc ds)) X') ∧ E (restrict (convert ext (stepCalls inc ds)) X') = X') := by
-  obtain ⟨defs, hj⟩ := J.step ext inc ds hx
+  obtain ⟨defs, hj, _⟩ := J.step ext inc ds hx
   have ok := ctx_ok hj
   have tr := ctx_trans hj
   refine ⟨fun X => (ctxOf (convert ext (stepCalls inc ds)) defs).E X X, ?_, ?_⟩
@@ -76,10 +76,85 @@ theorem C02_stable_models (ext inc : Bool) (ds : List Call) (hx : ∀ d ∈ ds, 
     rw [restrict_eq _ hj.inv defs]
     exact ⟨(stable_filter_kept _ _).mp h2, h3.symm⟩
 
+/-- the names shown under an interpretation: those of the output directives whose condition holds -/
+def shown (cs : List Call) (X : I) (name : List Nat) : Prop := ∃ cond, (name, cond) ∈ outsOf cs ∧ bodyR X X (.normal cond) = true
+
+theorem rep_val {c : CS} {P defs} (hj : J c P defs) (X : I) (n : Nat) (cond : List Int) (h : Rep c defs n cond) :
+    bodyR ((ctxOf c defs).E X X) ((ctxOf c defs).E X X) (.normal [(n : Int)]) = bodyR X X (.normal cond) := by
+  have ok := ctx_ok hj
+  rcases h with ⟨a, rfl, ha, hm⟩ | h
+  · have hn : n = finalMap c a := (agree_final c hj.inv _ hm).symm
+    have hd : a ∈ domOf c := by simp only [domOf, List.mem_map]; exact ⟨_, hm, rfl⟩
+    have h2 := ok.img2 a hd
+    simp only [ctxOf] at h2
+    have e := E_img ok X X a hd
+    simp only [ctxOf] at e
+    have hpos : (0 : Int) < (n : Int) := by omega
+    have hpos' : (0 : Int) < (a : Int) := by omega
+    simp only [bodyR, List.all_cons, List.all_nil, Bool.and_true, litR, hpos, hpos', ↓reduceIte, Int.natAbs_natCast]
+    rw [hn]; exact e
+  · have h2 := ok.aux2 _ h
+    simp only [ctxOf] at h2
+    have e := E_aux ok X X _ h
+    simp only [ctxOf] at e
+    have hpos : (0 : Int) < (n : Int) := by omega
+    simp only [bodyR, List.all_cons, List.all_nil, Bool.and_true, litR, hpos, ↓reduceIte, Int.natAbs_natCast]
+    exact e
+
+/-- **C02 (answer sets, shown symbols)**: `C02_stable_models` with the same extension `E`, and in addition: under
+    corresponding answer sets exactly the same symbol names are shown — a name is shown by the given program under `X`
+    (some output directive with that name has a true condition) iff it is shown by the emitted program under `E X`
+    (where every output directive is conditioned on one atom: the image of the single positive literal, or the
+    auxiliary atom defined by the condition). -/
+theorem C02_equivalence (ext inc : Bool) (ds : List Call) (hx : ∀ d ∈ ds, PlainOk d) :
+    ∃ E : I → I,
+      (∀ X, Stable (rulesOf ds) X →
+        Stable (rulesOf (convert ext (stepCalls inc ds)).out) (E X) ∧ E X 1 = false ∧ restrict (convert ext (stepCalls inc ds)) (E X) = X) ∧
+      (∀ X', Stable (rulesOf (convert ext (stepCalls inc ds)).out) X' → X' 1 = false →
+        Stable (rulesOf ds) (restrict (convert ext (stepCalls inc ds)) X') ∧ E (restrict (convert ext (stepCalls inc ds)) X') = X') ∧
+      (∀ X name, shown ds X name ↔ shown (convert ext (stepCalls inc ds)).out (E X) name) := by
+  obtain ⟨defs, hj, hk, hst, hpi⟩ := J.step ext inc ds hx
+  obtain ⟨defs0, hj0, _⟩ := JK.pre ext inc ds hx
+  have ok := ctx_ok hj
+  have tr := ctx_trans hj
+  refine ⟨fun X => (ctxOf (convert ext (stepCalls inc ds)) defs).E X X, ?_, ?_, ?_⟩
+  · intro X hs
+    have hs' := (stable_filter_kept _ X).mpr hs
+    obtain ⟨h1, h2, h3⟩ := translation_stable ok tr hs'
+    refine ⟨h1, h2, ?_⟩
+    rw [restrict_eq _ hj.inv defs]; exact h3
+  · intro X' hs h1
+    obtain ⟨h2, h3⟩ := translation_stable_back ok tr X' hs h1
+    rw [restrict_eq _ hj.inv defs]
+    exact ⟨(stable_filter_kept _ _).mp h2, h3.symm⟩
+  · intro X name
+    have houts : outsOf (convert ext (stepCalls inc ds)).out = (sortSyms (preEnd ext inc ds).output).map (fun p => (p.2, [(p.1 : Int)])) := by
+      rw [convert_step]; exact final_outs _ hj0.nofail hj0.noext hj0.noheur hk.noout
+    unfold shown
+    rw [houts]
+    constructor
+    · rintro ⟨cond, hm, hb⟩
+      obtain ⟨n, hn, hrep⟩ := hk.fwd (name, cond) hm
+      have hrep' := hrep.mono hst hpi (fun d hd => hd)
+      refine ⟨[(n : Int)], ?_, ?_⟩
+      · simp only [List.mem_map]
+        exact ⟨(n, name), (mem_sortSyms _ _).mpr hn, rfl⟩
+      · rw [rep_val hj X n cond hrep']; exact hb
+    · rintro ⟨c', hm, hb⟩
+      simp only [List.mem_map] at hm
+      obtain ⟨p, hp, he⟩ := hm
+      have hp' := (mem_sortSyms _ _).mp hp
+      obtain ⟨cond, hc, hrep⟩ := hk.bwd p hp'
+      have hrep' := hrep.mono hst hpi (fun d hd => hd)
+      have e1 : name = p.2 := (Prod.mk.inj he).1.symm
+      have e2 : c' = [(p.1 : Int)] := (Prod.mk.inj he).2.symm
+      subst e1 e2
+      exact ⟨cond, hc, by rw [← rep_val hj X p.1 cond hrep']; exact hb⟩
+
 /-- the emitted step ends with the compute statement that makes the false atom false -/
 theorem C02_compute_false (ext inc : Bool) (ds : List Call) (hx : ∀ d ∈ ds, PlainOk d) :
     Call.assume [-1] ∈ (convert ext (stepCalls inc ds)).out ∧ (convert ext (stepCalls inc ds)).fail = false := by
-  obtain ⟨defs, hj⟩ := J.step ext inc ds hx
+  obtain ⟨defs, hj, _⟩ := J.step ext inc ds hx
   refine ⟨?_, hj.nofail⟩
   unfold convert stepCalls
   rw [List.foldl_append, List.foldl_append]
